@@ -398,5 +398,103 @@ theorem Set_EachValue_eq {σ : Type} (ord : GoMap α → GoMap α) (ho : MapOrde
   have := Set_EachValue_loop1_eq cb (-1) (iter R s) [] (Int.toNat (len (iter R s) + 1)) st (by simp [len])
   simpa [len] using this
 
+/-! ### `NewSetFromSlice` and the set algebra -/
+
+theorem addWhere_buckets (R : Rules α) (p : α → Bool) (l : List α) : ∀ rs : SetImpl α,
+    (addWhere R p rs l).buckets =
+      l.foldl (fun b v => if p v then (add R ⟨b⟩ v).buckets else b) rs.buckets := by
+  induction l with
+  | nil => intro rs; rfl
+  | cons v rest ih =>
+    intro rs
+    rw [addWhere_cons, ih]
+    by_cases h : p v = true <;> simp [h]
+
+theorem NewSetFromSlice_loop1_eq (x : GoSet α) (m : GoMap α) (l : List α) :
+    NewSetFromSlice_loop1 x m l = .ok ⟨(addWhere x.rules (fun _ => true) ⟨m⟩ l).buckets, x.rules⟩ := by
+  induction l generalizing m with
+  | nil => simp [NewSetFromSlice_loop1, addWhere]
+  | cons v rest ih =>
+    have := Set_Add_eq x.rules ⟨m⟩ v
+    simp only at this
+    simp [NewSetFromSlice_loop1, this, ih, addWhere_cons]
+
+theorem NewSetFromSlice_eq (R : Rules α) (l : List α) :
+    NewSetFromSlice R l = .ok ⟨(fromList R l).buckets, R⟩ := by
+  simp [NewSetFromSlice, NewSet, NewSetFromSlice_loop1_eq, fromList, mapEmpty, empty]
+
+/-- `s.EachValue(func(v T) { if p(v) { rs.Add(v) } })` for a callback that is, as a state transformer on the map of
+`rs`, the model's conditional `add` -/
+theorem eachValue_addWhere (ord : GoMap α → GoMap α) (ho : MapOrder ord) (R : Rules α) (s : SetImpl α)
+    (ha : Asc s.buckets) (p : α → Bool) (cb : GoMap α → α → Res (GoMap α))
+    (hcb : ∀ b v, cb b v = .ok (if p v then (add R ⟨b⟩ v).buckets else b)) (rs : SetImpl α) :
+    Set_EachValue ord s.buckets R cb rs.buckets = .ok (addWhere R p rs (iter R s)).buckets := by
+  rw [Set_EachValue_eq ord ho R s ha, foldRes_ok cb _ hcb, addWhere_buckets]
+
+theorem cb_add (R : Rules α) (b : GoMap α) (v : α) :
+    (Res.bind (Set_Add b R v) fun x => Res.ok x) = .ok (if (fun _ => true) v then (add R ⟨b⟩ v).buckets else b) := by
+  have := Set_Add_eq R ⟨b⟩ v
+  simp only at this
+  simp [this]
+
+theorem cb_addIf (R : Rules α) (s2 : SetImpl α) (b : GoMap α) (v : α) :
+    (Res.bind (Res.bind (Set_Has s2.buckets R v) fun x2 =>
+        if x2 then (Res.bind (Set_Add b R v) fun x3 => Res.ok x3) else Res.ok b) fun r => Res.ok r) =
+      .ok (if (fun v => has R s2 v) v then (add R ⟨b⟩ v).buckets else b) := by
+  have := Set_Add_eq R ⟨b⟩ v
+  simp only at this
+  by_cases h : has R s2 v = true <;> simp [Set_Has_eq, this, h]
+
+theorem cb_addIfNot (R : Rules α) (s2 : SetImpl α) (b : GoMap α) (v : α) :
+    (Res.bind (Res.bind (Set_Has s2.buckets R v) fun x2 =>
+        if (!x2) then (Res.bind (Set_Add b R v) fun x3 => Res.ok x3) else Res.ok b) fun r => Res.ok r) =
+      .ok (if (fun v => !has R s2 v) v then (add R ⟨b⟩ v).buckets else b) := by
+  have := Set_Add_eq R ⟨b⟩ v
+  simp only at this
+  by_cases h : has R s2 v = true <;> simp [Set_Has_eq, this, h]
+
+variable (same : Rules α → Rules α → Bool) (ord : GoMap α → GoMap α) (ho : MapOrder ord) (R : Rules α)
+  (s1 s2 : SetImpl α) (h1 : Asc s1.buckets) (h2 : Asc s2.buckets) (hs : same R R = true)
+include ho h1 h2 hs
+
+theorem Set_Union_eq :
+    Set_Union same ord s1.buckets R s2.buckets R = .ok ⟨(union R s1 s2).buckets, R⟩ := by
+  simp only [Set_Union, mustHaveSameRules_ok same _ _ R R hs, NewSet, rbind_ok, mapEmpty]
+  rw [eachValue_addWhere ord ho R s1 h1 (fun _ => true) _ (cb_add R) ⟨[]⟩, rbind_ok,
+    eachValue_addWhere ord ho R s2 h2 (fun _ => true) _ (cb_add R), rbind_ok]
+  rfl
+
+omit h2 in
+theorem Set_Intersection_eq :
+    Set_Intersection same ord s1.buckets R s2.buckets R = .ok ⟨(intersection R s1 s2).buckets, R⟩ := by
+  simp only [Set_Intersection, mustHaveSameRules_ok same _ _ R R hs, NewSet, rbind_ok, mapEmpty]
+  rw [eachValue_addWhere ord ho R s1 h1 (fun v => has R s2 v) _ (cb_addIf R s2) ⟨[]⟩, rbind_ok]
+  rfl
+
+omit h2 in
+theorem Set_Subtract_eq :
+    Set_Subtract same ord s1.buckets R s2.buckets R = .ok ⟨(subtract R s1 s2).buckets, R⟩ := by
+  simp only [Set_Subtract, mustHaveSameRules_ok same _ _ R R hs, NewSet, rbind_ok, mapEmpty]
+  rw [eachValue_addWhere ord ho R s1 h1 (fun v => !has R s2 v) _ (cb_addIfNot R s2) ⟨[]⟩, rbind_ok]
+  rfl
+
+theorem Set_SymmetricDifference_eq :
+    Set_SymmetricDifference same ord s1.buckets R s2.buckets R =
+      .ok ⟨(symmetricDifference R s1 s2).buckets, R⟩ := by
+  simp only [Set_SymmetricDifference, mustHaveSameRules_ok same _ _ R R hs, NewSet, rbind_ok, mapEmpty]
+  rw [eachValue_addWhere ord ho R s1 h1 (fun v => !has R s2 v) _ (cb_addIfNot R s2) ⟨[]⟩, rbind_ok,
+    eachValue_addWhere ord ho R s2 h2 (fun v => !has R s1 v) _ (cb_addIfNot R s1), rbind_ok]
+  rfl
+
+omit ho h1 h2 hs in
+/-- with incompatible rules all four panic (the branch `SetImpl` leaves out: it shares one `Rules` by construction) -/
+theorem algebra_panics (R1 R2 : Rules α) (m1 m2 : GoMap α) (hne : same R1 R2 = false) :
+    (∃ w, Set_Union same ord m1 R1 m2 R2 = .panic w) ∧ (∃ w, Set_Intersection same ord m1 R1 m2 R2 = .panic w) ∧
+    (∃ w, Set_Subtract same ord m1 R1 m2 R2 = .panic w) ∧
+    (∃ w, Set_SymmetricDifference same ord m1 R1 m2 R2 = .panic w) := by
+  obtain ⟨w, hw⟩ := mustHaveSameRules_panic same m1 m2 R1 R2 hne
+  refine ⟨⟨w, ?_⟩, ⟨w, ?_⟩, ⟨w, ?_⟩, ⟨w, ?_⟩⟩ <;>
+    simp [Set_Union, Set_Intersection, Set_Subtract, Set_SymmetricDifference, hw, Res.bind]
+
 end SetFnsTie
 end CtyModel
